@@ -45,10 +45,10 @@ theorem C14_shadowing_invariant [Selene.Scope.Core.NameFilter] (ρ : String → 
 
 /-- hypotheses are satisfiable by a renaming that is not the identity: swap `x` and `fresh` (under a
     filter that drops `_` and `...`) -/
-def underscoreFilter : Selene.Scope.Core.NameFilter := ⟨fun n => n != "_" && n != "..."⟩
+def underscoreFilter : Selene.Scope.Core.NameFilter := { keep := fun n => n != "_" && n != "..." }
 example : @Selene.Scope.RenameProof.Renaming underscoreFilter
     (fun n => if n = "x" then "fresh" else if n = "fresh" then "x" else n) := by
-  refine @Selene.Scope.RenameProof.Renaming.mk underscoreFilter _ ?_ (by decide) (by decide) ?_
+  refine @Selene.Scope.RenameProof.Renaming.mk underscoreFilter _ ?_ (by decide) (by decide) ?_ (fun _ => rfl) (fun _ => rfl)
   · intro a b h
     by_cases ha : a = "x" <;> by_cases hb : b = "x" <;> by_cases ha' : a = "fresh" <;> by_cases hb' : b = "fresh" <;>
       simp_all
